@@ -147,10 +147,14 @@ def generate(rng, tier):
         for n in big:
             key, iv = rb(rng, klen(mode)), rb(rng, 8) + b"\x00\x00" + rb(rng, 6)
             seed = rng.randrange(1, 1 << 31)
-            R(mode, key, iv, "l:%d:%d" % (seed, n))
-            if n in (1024, 1025, 4096, 20480) or tier == "thorough":
-                E(mode, key, iv, "l:%d:%d" % (seed + 1, n))
-                D(mode, key, iv, "l:%d:%d" % (seed + 2, n))           # CTR: a real decryption; CBC: raw decryption + padding check
+            # above 4 KiB most of the message is a constant filler in the quick tier (the LCG expansion dominates the Coq cost)
+            desc = lambda sd: ("l:%d:%d" % (sd, n)) if (n < 4000 or tier == "thorough") else "l:%d:1000+r:%02x:%d" % (sd, sd % 256, n - 1000)
+            if n != 20479 or tier == "thorough":
+                R(mode, key, iv, desc(seed))
+            if n in (1024, 1025, 4096, 20479, 20480) or tier == "thorough":
+                E(mode, key, iv, desc(seed + 1))
+                if mode.endswith("ctr") or n < 4000 or tier == "thorough":
+                    D(mode, key, iv, desc(seed + 2))                  # CTR: a real decryption; CBC: raw decryption + padding check
         R(mode, rb(rng, klen(mode)), rb(rng, 16)[:8] + b"\x00" * 8, "r:00:1000")
         R(mode, rb(rng, klen(mode)), rb(rng, 16)[:8] + b"\x00" * 8, "r:ff:1030+r:10:16")
 
@@ -302,6 +306,8 @@ def generate(rng, tier):
     for mode in MODES:
         key, iv = rb(rng, klen(mode)), rb(rng, 8) + b"\x00" + rb(rng, 7)
         for n in range(81, 337):
+            if tier == "quick" and mode != "128cbc" and n % 3 != MODES.index(mode) % 3 and n % 16 not in (0, 15):
+                continue                                             # quick: full sweep for one mode, every third length for the others
             if mode.endswith("cbc") or tier == "thorough" or n % 16 in (0, 1, 15):
                 R(mode, key, iv, "l:%d:%d" % (n, n))
             else:                                                    # CTR decryption is the same function
